@@ -34,7 +34,8 @@ func TestMain(m *testing.M) {
 			"Oracle: a declarative evaluator of the property statement over the rules the server itself reports (ACL GETUSER), the categories of the live table (ACL CAT) and the harness's own key/channel table. DENY expected ⇒ the reply is an error and the dataset digest, ACL LIST, PUBSUB NUMSUB and the connection's identity (ACL WHOAMI) are unchanged. ALLOW expected ⇒ the reply equals the twin's reply by meaning and both datasets stay equal. Ambiguous cases (read-modify-write on a key with only one of the two permissions, '+cmd' for a sub-command) are not asserted. "+
 			"A case is one rule set plus its steps; non-trivial = the rule set has at least one restrictive rule and a step's command touches a key or channel; 'mixed' cases (a multi-key command with one allowed and one forbidden key) are counted separately; distinct = FNV-64 of rules and steps.",
 		"embedded API access to the server under test is used only for observation (it bypasses the ACL by design)",
-		"rule-set construction and lifecycle (how SETUSER tokens turn into rules, SAVE/LOAD) is C11's subject; here the reported rules are the input")
+		"rule-set construction and lifecycle (how SETUSER tokens turn into rules, SAVE/LOAD) is C11's subject; here the reported rules are the input",
+		"histories also contain failed authentication attempts on the user's connection (identity and verdicts must not change) and SAVE / edit / LOAD REPLACE of the rules under the authenticated connection")
 	common.Main(m, rec)
 }
 
